@@ -143,6 +143,8 @@ def build(G, style="kw", rev=False, submit_root=False, extra=None, init=True):
         if "output_of" in n:
             # value produced by submitting the task
             B.objs[l] = B.objs[n["output_of"] + "#out"]
+            if n.get("pre"):
+                B.objs[l].add_pretasks(*[B.objs[p] for p in n["pre"]])
             continue
         cls = pycls(n["cls"])
         names = sorted(n["args"], reverse=rev)
